@@ -183,7 +183,7 @@ def judge(w, loaded, model: Model, contracts, call, truth, meta) -> None:
                     ok = type(exc) is hub.errclasses.get(cid) and ("D:" + cid + ":") in str(exc)
                 elif err == "instance":
                     ok = exc is hub.errinsts.get(cid)
-                elif err == "factory":
+                elif err in ("factory", "method"):
                     made = hub.factory_made.get(cid, [])
                     ok = len(made) >= 1 and exc is made[-1]
                 if ok:
